@@ -6,6 +6,7 @@ toolchain go1.23.5
 
 require (
 	github.com/gobwas/ws v1.2.0
+	golang.org/x/net v0.29.0
 	google.golang.org/genproto v0.0.0-20230410155749-daa745c078e1
 	google.golang.org/grpc v1.68.0
 	google.golang.org/protobuf v1.34.2
@@ -16,7 +17,6 @@ require (
 require (
 	github.com/gobwas/httphead v0.1.0 // indirect
 	github.com/gobwas/pool v0.2.1 // indirect
-	golang.org/x/net v0.29.0 // indirect
 	golang.org/x/sys v0.25.0 // indirect
 	golang.org/x/text v0.18.0 // indirect
 )
